@@ -305,6 +305,7 @@ impl SessionAcceptor {
             session,
             link_listener: link_listener_tx,
             pending_link_flows: HashMap::new(),
+            flows_owed_after_attach: Vec::new(),
         };
 
         let (engine_handle, outcome) = self
@@ -391,6 +392,9 @@ pub struct ListenerSession {
     /// Keyed by the remote's handle (InputHandle). These are replayed when
     /// `allocate_incoming_link` inserts the relay into `link_by_input_handle`.
     pub(crate) pending_link_flows: HashMap<InputHandle, Vec<LinkFlow>>,
+    /// Flows that the replay of `pending_link_flows` asks to send back (the answer to a
+    /// drain, an echo). They are sent right behind the local attach of that link.
+    pub(crate) flows_owed_after_attach: Vec<LinkFlow>,
 }
 
 impl endpoint::Session for ListenerSession {
@@ -444,6 +448,8 @@ impl endpoint::Session for ListenerSession {
 
         // Replay any buffered link-level Flow frames that arrived before this
         // link handle was registered (due to pipelining).
+        self.flows_owed_after_attach
+            .retain(|f| f.handle.0 != output_handle.0);
         if let Some(pending_flows) = self.pending_link_flows.remove(&input_handle) {
             if let Some(link_relay) = self.session.link_by_input_handle.get_mut(&input_handle) {
                 for flow in pending_flows {
@@ -458,15 +464,17 @@ impl endpoint::Session for ListenerSession {
                             output_handle: ref oh,
                             ..
                         } => {
-                            let _echo = flow_state.state.on_incoming_flow(flow, oh.clone());
+                            let echo = flow_state.state.on_incoming_flow(flow, oh.clone());
                             flow_state.notifier.notify_waiters();
+                            self.flows_owed_after_attach.extend(echo);
                         }
                         LinkRelay::Receiver {
                             flow_state,
                             output_handle: ref oh,
                             ..
                         } => {
-                            let _echo = flow_state.on_incoming_flow(flow, oh.clone());
+                            let echo = flow_state.on_incoming_flow(flow, oh.clone());
+                            self.flows_owed_after_attach.extend(echo);
                         }
                     }
                 }
@@ -626,6 +634,14 @@ impl endpoint::Session for ListenerSession {
     // Intercepting LinkFrames
     fn on_outgoing_attach(&mut self, attach: Attach) -> Result<SessionFrame, Self::Error> {
         self.session.on_outgoing_attach(attach)
+    }
+
+    fn take_flows_owed_after_attach(&mut self, handle: &OutputHandle) -> Vec<LinkFlow> {
+        let (owed, rest) = std::mem::take(&mut self.flows_owed_after_attach)
+            .into_iter()
+            .partition(|f| f.handle.0 == handle.0);
+        self.flows_owed_after_attach = rest;
+        owed
     }
 
     fn on_outgoing_flow(&mut self, flow: LinkFlow) -> Result<SessionFrame, Self::Error> {
